@@ -46,11 +46,26 @@ def scrub_result(res):
     return out
 
 
-def execute_case(farm, case, id_prefix="c"):
-    """Run every variant of a case; returns list of scrubbed results in variant order."""
+def execute_case(farm, case, id_prefix="c", mod=None):
+    """Run every variant of a case; returns (case_as_executed, scrubbed results in variant
+    order). A check with an expand() hook is two-phase: the first execution is observed,
+    expand() derives further variants from it (e.g. one per crash point seen), and the case as
+    executed carries them with expanded=True so that a replay runs exactly the same plan."""
     jobs = jobs_of(case, id_prefix)
     got = farm.run_all(jobs)
-    return [scrub_result(got[j["id"]]) for j in jobs]
+    res = [scrub_result(got[j["id"]]) for j in jobs]
+    if mod is not None and hasattr(mod, "expand") and not case.get("expanded") and not harness_problems(res):
+        extra = mod.expand(case, res)
+        case = dict(case, expanded=True)
+        if extra:
+            n0 = len(case["variants"])
+            case["variants"] = list(case["variants"]) + extra
+            for k, v in enumerate(extra):
+                v.setdefault("slot", n0 + k)
+            jobs2 = jobs_of(case, id_prefix)[n0:]
+            got2 = farm.run_all(jobs2)
+            res = res + [scrub_result(got2[j["id"]]) for j in jobs2]
+    return case, res
 
 
 def jobs_of(case, id_prefix="c"):
@@ -115,13 +130,13 @@ class Shrinker:
         self.execs += 1
         self.n += 1
         try:
-            res = execute_case(self.farm, cand, id_prefix=f"s{self.n}")
+            cand_x, res = execute_case(self.farm, cand, id_prefix=f"s{self.n}", mod=self.mod)
         except HarnessError:
             return False
         if harness_problems(res):
             return False
         try:
-            vs = self.mod.oracle(cand, res)
+            vs = self.mod.oracle(cand_x, res)
         except Exception:
             return False
         return any(v["sig"] == self.sig for v in vs)
@@ -388,7 +403,7 @@ def _replay(farm, mod, path):
     with open(path) as fp:
         rep = json.load(fp)
     case = rep["case"]
-    res = execute_case(farm, case, id_prefix="r")
+    case, res = execute_case(farm, case, id_prefix="r", mod=mod)
     probs = harness_problems(res)
     if probs:
         log("HARNESS:", probs[:3])
@@ -442,8 +457,30 @@ def _explore(farm, mod, tier, verif_seed, budget_s, n_cases, fingerprints_out, t
         for c in cases:
             jobs.extend(jobs_of(c))
         got = farm.run_all(jobs)
+        first = []
         for c in cases:
-            res = [scrub_result(got[j["id"]]) for j in jobs_of(c)]
+            first.append((c, [scrub_result(got[j["id"]]) for j in jobs_of(c)]))
+        if hasattr(mod, "expand"):
+            jobs2, second = [], []
+            for c, res in first:
+                if harness_problems(res) or c.get("expanded"):
+                    second.append((c, res, 0))
+                    continue
+                extra = mod.expand(c, res)
+                cx = dict(c, expanded=True)
+                n0 = len(c["variants"])
+                cx["variants"] = list(c["variants"]) + extra
+                for k, v in enumerate(extra):
+                    v.setdefault("slot", n0 + k)
+                jobs2.extend(jobs_of(cx)[n0:])
+                second.append((cx, res, n0))
+            got2 = farm.run_all(jobs2) if jobs2 else {}
+            first = []
+            for cx, res, n0 in second:
+                if n0:
+                    res = res + [scrub_result(got2[j["id"]]) for j in jobs_of(cx)[n0:]]
+                first.append((cx, res))
+        for c, res in first:
             probs = harness_problems(res)
             if probs:
                 harness.append((c["seed"], probs[0]))
@@ -478,20 +515,19 @@ def _explore(farm, mod, tier, verif_seed, budget_s, n_cases, fingerprints_out, t
         sh = Shrinker(farm, mod, c, sig)
         small = sh.run()
         # confirm in fresh executions
-        res2 = execute_case(farm, small, id_prefix="v")
+        small, res2 = execute_case(farm, small, id_prefix="v", mod=mod)
         vs2 = [] if harness_problems(res2) else mod.oracle(small, res2)
         hit = [v for v in vs2 if v["sig"] == sig]
         if not hit:
             # fall back to the unshrunk case
-            small = c
-            res2 = execute_case(farm, small, id_prefix="v2")
+            small, res2 = execute_case(farm, c, id_prefix="v2", mod=mod)
             vs2 = [] if harness_problems(res2) else mod.oracle(small, res2)
             hit = [v for v in vs2 if v["sig"] == sig]
         if not hit:
             harness.append((c["seed"], f"UNREPRODUCIBLE violation {sig}"))
             continue
         fp1 = fingerprint(small, res2)
-        res3 = execute_case(farm, small, id_prefix="v3")
+        _, res3 = execute_case(farm, small, id_prefix="v3", mod=mod)
         if fingerprint(small, res3) != fp1:
             harness.append((c["seed"], f"NONDETERMINISM while confirming {sig}"))
             continue
